@@ -71,7 +71,8 @@ def all_types_history(rng: Any, asset: str = "AAA") -> Dict[str, Any]:
 
 def shaped_input(rng: Any, shape: str) -> Dict[str, Dict[str, Any]]:
     if shape == "all-types":
-        return {"AAA": all_types_history(rng)}
+        # ... next to a sub-cent coin with a dust transfer fee (worth less than 5e-14 fiat: FX9)
+        return {"AAA": all_types_history(rng), "BBB": families.tiny_fee_transfer(rng, "BBB")}
     if shape == "inverted-dates":
         # events around new year / a day boundary in far-apart UTC offsets: own-date order is the reverse of instant order
         first, _ = families.inverted_dates(rng, "AAA", at_new_year=True)
@@ -85,7 +86,8 @@ def shaped_input(rng: Any, shape: str) -> Dict[str, Dict[str, Any]]:
     if shape == "mixed-offsets":
         return cli_histories(rng, 2, cli_profile(mixed_tz=True, gap_style=rng.choice(("short", "boundary", "mixed")), tie_prob=0.2, max_events=14, min_events=6))
     if shape == "single-asset":
-        return cli_histories(rng, 1)
+        # ... plus a sub-cent coin with a dust transfer fee (worth less than 5e-14 fiat)
+        return dict(cli_histories(rng, 1), BBB=families.tiny_fee_transfer(rng, "BBB"))
     if shape == "multi-asset":
         return cli_histories(rng, 3)
     if shape == "sparse-years":
